@@ -209,11 +209,71 @@ def module_lifetime(P, R, rule='C10.WIRE.3'):
     R.ob(rule, True, P.need_fn('module_destructor', 'modules/iauth_core.c'), 'scanned every store of a function into a request: %d found' % n, key='scan', nontrivial=False)
 
 
+def retire_wiring(P, R, rule='C10.WIRE.6'):
+    """The count follows the server's view: a request leaves the table when, and only when, the server withdrew the
+    client (D), reported it registered (T), or the daemon gave its verdict.  So (a) in the dispatch every path through
+    the D and the T arm reaches the retiring handler - no condition of the daemon's own stands between the server's
+    line and the removal; (b) the withdrawing handler is called from the D arm only and the registering handler from
+    the T arm and from the verdict functions only - no timer, hook or reply handler retires a client the server still
+    counts."""
+    rd, disp = core.reader_dispatch(P)
+    pred = core.retire_pred(P)
+    retiring = {}
+    for s, h, vs in disp:
+        if any(pred(t) for t in h.sites()):
+            retiring.setdefault(h.key, (h, set()))[1].update(vs or [])
+    if not retiring:
+        raise AnalysisBroken('no handler of the dispatch removes a request from the table')
+    # (a) must-pass-through inside the arms
+    sw = None
+    for bid in rd.reachable_blocks():
+        if any(e.label == 'case' for e in rd.out[bid]):
+            c = rd.term_cond(bid)
+            if c is not None and any(x.get('k') == 'idx' for x in walk(c)):
+                sw = bid
+    for k, (h, letters) in sorted(retiring.items()):
+        for e in rd.out[sw]:
+            if e.label != 'case' or not (set(e.vs or []) & letters):
+                continue
+            calls = {t.key for (t, hh, vs) in disp if hh.key == k}
+            # leave the arm = come back to the loop head or leave the function; stop at the call
+            arm = rd.reach([e.dst], cut_blocks=[sw])
+            ok = True
+            seen, work = set(), [e.dst]
+            while work:
+                b = work.pop()
+                if b in seen:
+                    continue
+                seen.add(b)
+                if any(t.key in calls for t in rd.block_sites(b)):
+                    continue
+                outs = [x for x in rd.out[b]]
+                if not outs:
+                    ok = False
+                for x in outs:
+                    if x.dst == sw or x.dst not in arm or rd.term_cond(x.dst) is not None and any(isinstance(y, dict) and y.get('k') == 'callref' and y.get('callee') == 'evbuffer_readln' for y in walk(rd.term_cond(x.dst))):
+                        ok = False
+                    else:
+                        work.append(x.dst)
+            R.ob(rule, ok, rd, 'every path through the %s arm of the dispatch calls %s' % ('/'.join(repr(chr(v)) for v in sorted(set(e.vs or []) & letters)), h.name), key='arm-retires:%s' % h.name)
+    # (b) who may call the retiring handlers
+    V = core.verdict_fns(P)
+    for k, (h, letters) in sorted(retiring.items()):
+        for s in P.callers(h, may=True):
+            from_dispatch = s.fn.key == rd.key
+            from_verdict = s.fn.key in V
+            withdraws = ord('D') in letters and ord('T') not in letters
+            ok = from_dispatch or (from_verdict and not withdraws)
+            R.ob(rule, ok, s, '%s is called from the dispatch%s only (caller: %s)' % (h.name, '' if withdraws else ' and from the verdict functions', s.fn.name), key='retire-caller:%s' % h.name)
+    R.floor(rule, 4)
+
+
 def run(P, R, tier):
     # withdrawals and registrations must find the request they are about
     from .c08 import junk_inert
     junk_inert(P, R, 'C10.GRD.1')
     table_sites(P, R)
+    retire_wiring(P, R)
     cl = cleanup_fn(P, R)
     timer_lifecycle(P, R, cl)
     stats_binding(P, R)
